@@ -107,6 +107,23 @@ theorem init_serializable (db : Txn.DB V) (hw : Txn.WF db) (marker : Txn.Key) (m
     Txn.initRun db marker mark seeds others = Txn.initAlone (db.putAll others) marker mark seeds :=
   Txn.initRun_serializable db hw marker mark seeds others hm hok
 
+/-- **what a successful Init leaves behind, whatever ran beside it**: relative to the database at its
+commit point (everything the other writers committed meanwhile included), nothing changes if the store
+was already marked; otherwise every seed whose id was free holds its seed value, every id that existed
+keeps its value, the marker is set and no other key is touched — the sequential `initOnce` of the
+theorems above -/
+theorem init_concurrent_is_initOnce (db : Txn.DB V) (hw : Txn.WF db) (marker : Txn.Key) (mark : V)
+    (seeds : List (Txn.Key × V)) (hnd : (seeds.map (·.1)).Nodup) (others : List (Txn.Key × Option V))
+    (hm : marker ∉ others.map (·.1)) (hok : (Txn.initRun db marker mark seeds others).2.1 = true)
+    (k : Txn.Key) (hk : k ≠ marker) :
+    (Txn.initRun db marker mark seeds others).1.get k =
+      (if ((db.putAll others).get marker).isSome then (db.putAll others).get k
+       else match seeds.find? (fun s => s.1 == k) with
+         | some s => (match (db.putAll others).get k with | some old => some old | none => some s.2)
+         | none => (db.putAll others).get k) := by
+  rw [Txn.initRun_serializable db hw marker mark seeds others hm hok]
+  exact (Txn.initAlone_get (db.putAll others) (Txn.wf_putAll hw others) marker mark seeds hnd k hk).2.1
+
 /-- why Init must look its seed ids up *through its transaction*: the variant that checks existence in
 a separate read-only view commits over a Create that was acknowledged meanwhile -/
 theorem blind_lookup_loses_a_write :
